@@ -2,3 +2,4 @@ import Homonim.Model.Geom
 import Homonim.Model.Blocks
 import Homonim.Model.WindowIO
 import Homonim.Model.Orient
+import Homonim.Model.Kernel
